@@ -36,9 +36,19 @@ pub fn type_to_tokens(ty: &ASN1Type) -> String {
             .join(" | "),
         ASN1Type::Choice(c) => format_choice_options(c),
         ASN1Type::Set(se) | ASN1Type::Sequence(se) => format_sequence_or_set_members(se),
-        ASN1Type::SetOf(s) | ASN1Type::SequenceOf(s) => type_to_tokens(&s.element_type) + "[]",
+        ASN1Type::SetOf(s) | ASN1Type::SequenceOf(s) => array_type_to_tokens(&s.element_type),
         ASN1Type::ElsewhereDeclaredType(e) => to_jer_identifier(&e.identifier),
         _ => String::from("any"),
+    }
+}
+
+pub fn array_type_to_tokens(element_type: &ASN1Type) -> String {
+    match element_type {
+        // union types need parentheses, since `A | B[]` reads as `A | (B[])`
+        ASN1Type::Choice(_) | ASN1Type::Enumerated(_) => {
+            format!("({})[]", type_to_tokens(element_type))
+        }
+        _ => type_to_tokens(element_type) + "[]",
     }
 }
 
